@@ -600,6 +600,13 @@ fn bw_case(ctx: &mut Ctx, eng: &mut dyn Engine, line: String, bucket: &str) {
     ctx.nontrivial(&format!("{} {}", key, fnv(line.as_bytes())));
 }
 
+/// a case boundary that only groups self-contained op lines (not counted as an evaluation of its own)
+fn new_case(ctx: &mut Ctx, eng: &mut dyn Engine, id: &str) {
+    ctx.case(id);
+    ctx.evaluations -= 1;
+    eng.reset();
+}
+
 pub fn run(ctx: &mut Ctx, eng: &mut dyn Engine) {
     let thorough = ctx.tier_thorough;
     let depth = if thorough { 5 } else { 4 };
@@ -616,7 +623,8 @@ pub fn run(ctx: &mut Ctx, eng: &mut dyn Engine) {
         depth, WATCHDOG_S
     );
     // 1. exhaustive short sequences ----------------------------------------------------------------------
-    ctx.case(&format!("seq-exhaustive-depth-{}", depth));
+    // (`seq` / `bw` / `dc` lines are self-contained; they are grouped into SMALL cases so that the replay of a failure -
+    // the op lines of its case - holds the failing op and little else)
     let mut alphabet: Vec<String> = Vec::new();
     for k in 0..=5 {
         alphabet.push(format!("w{}", k));
@@ -629,6 +637,9 @@ pub fn run(ctx: &mut Ctx, eng: &mut dyn Engine) {
     for size in 0..=4usize {
         let total = a.pow(depth as u32);
         for code in 0..total {
+            if code % 500 == 0 {
+                new_case(ctx, eng, &format!("seq-exhaustive-depth-{}-size{}-{}", depth, size, code / 500));
+            }
             let mut c = code;
             let mut toks: Vec<&str> = Vec::with_capacity(depth);
             for _ in 0..depth {
@@ -707,13 +718,12 @@ pub fn run(ctx: &mut Ctx, eng: &mut dyn Engine) {
     }
 
     // 3. the BlockWriter with the real flate2 decoders ---------------------------------------------------------
-    ctx.case("blockwriter");
-    eng.reset();
     let cencs = ["zlib", "deflate", "gzip"];
     // 3a. empty and tiny payloads: every composition of the stream when it is short enough
     for cenc in cencs.iter() {
         for pl in [&b""[..], b"a", b"ab", b"hello"] {
             for level in [0u32, 6] {
+                new_case(ctx, eng, &format!("blockwriter-tiny-{}-{}B-level{}", cenc, pl.len(), level));
                 let stream = compress(cenc, pl, level);
                 let n = stream.len();
                 let all = n <= 12;
@@ -755,6 +765,7 @@ pub fn run(ctx: &mut Ctx, eng: &mut dyn Engine) {
     // 3b. larger payloads
     let n_big = if thorough { 400 } else { 60 };
     for i in 0..n_big {
+        new_case(ctx, eng, &format!("blockwriter-payload-{}", i));
         let cenc = cencs[i % 3];
         let big = i % 10 == 0;
         let (pl, class) = payload(&mut rng, 1 + (i / 3) % 4, big);
@@ -795,6 +806,9 @@ pub fn run(ctx: &mut Ctx, eng: &mut dyn Engine) {
     // 3d. the contract of Drain.Contract against the real decompressors
     let n_dc = if thorough { 600 } else { 120 };
     for i in 0..n_dc {
+        if i % 20 == 0 {
+            new_case(ctx, eng, &format!("decompressor-contract-{}", i / 20));
+        }
         let cenc = cencs[i % 3];
         let (pl, class) = payload(&mut rng, (i / 3) % 5, false);
         let mut stream = compress(cenc, &pl, [1u32, 6, 9, 0][i % 4]);
@@ -829,6 +843,9 @@ pub fn run(ctx: &mut Ctx, eng: &mut dyn Engine) {
     // 3c. pure garbage
     let n_garbage = if thorough { 1500 } else { 300 };
     for i in 0..n_garbage {
+        if i % 50 == 0 {
+            new_case(ctx, eng, &format!("blockwriter-garbage-{}", i / 50));
+        }
         let cenc = cencs[i % 3];
         let len = [1usize, 2, 3, 5, 18, 100, 1000, 5000][i % 8];
         let mut g = rng.bytes(len);
